@@ -1,0 +1,13 @@
+//go:build verif
+
+package litestream
+
+// VerifConcHandles reports which long-lived resources of db are currently held
+// (SQL handle, database file descriptor, read transaction) and whether the
+// database is marked open. Used by the verification harness (property C12)
+// after all operations have returned.
+func (db *DB) VerifConcHandles() (sqlDB, file, rtx, opened bool) {
+	db.mu.RLock()
+	defer db.mu.RUnlock()
+	return db.db != nil, db.f != nil, db.rtx != nil, db.opened
+}
